@@ -53,6 +53,7 @@ IDIOMS = {
     'I12': 'X.try_into().expect(MSG)  =>  idiom_try_into_expect(X)   (slice -> [u8; N]; the panic becomes the precondition len == N)',
     'I13': 'X.borrow_mut()  =>  X.as_mut_slice()   (BorrowMut<[u8]> for Vec<u8> / [u8; N] is the whole buffer as a slice)',
     'I14': 'T::from(E)  =>  T::from_<ty>(E)   (From-trait static dispatch made explicit; rustc re-checks that E has type <ty>)',
+    'I15': 'M.entry(K).or_insert(V)  =>  idiom_entry_or_insert(&mut M, K, V)   (HashMap entry API: &mut to the value at K, V inserted first if absent)',
     'A1': 'abstract-expression: `expr` => havoc::<T>() (unconstrained value)',
 }
 
@@ -469,6 +470,11 @@ def apply_idiom(ed, text, base, body_rel, loops, rest, item_id, log, rel, src):
             pre = re.match(r'^(\w+)::from\(', anchor)
             b = a + pre.end()
             new = '%s::from_%s(' % (h.group(1), parts[1])
+        elif rule == 'I15':
+            h = re.match(r'^([\w\.]+)\.entry\((.+)\)\.or_insert\((.+)\)$', flat)
+            if not h:
+                raise GenError('I15 shape mismatch: %s' % flat)
+            new = 'idiom_entry_or_insert(&mut %s, %s, %s)' % h.groups()
         elif rule == 'I11':
             h = re.match(r'^([\w\.]+)\.to_le_bytes\(\)$', flat)
             if not h:
